@@ -247,6 +247,8 @@ pub fn payloads() -> Vec<Payload> {
             answered: true,
         });
     }
+    v.push(p("rpc-udp-dump2", apprpc::build_call(0x0badcafe, 2, 100000, 2, 4, &[], &[]), Via::UdpOnly, true));
+    v.push(p("rpc-tcp-dump2", apprpc::with_record_mark(&apprpc::build_call(0x0badcafe, 2, 100000, 2, 4, &[], &[])), Via::TcpOnly, true));
     // a record-marked call carried by a datagram: completes the stream signature, answered by the
     // stream responder (marked reply)
     v.push(p("rpc-marked-getport-in-datagram", apprpc::with_record_mark(&apprpc::build_call(0x12345678, 2, 100000, 2, 3, &[], &[])), Via::UdpOnly, true));
